@@ -6,6 +6,7 @@ import re
 
 import gen_text
 import gen_prog
+import gen_sem
 import vlib
 from vlib import hexs
 
@@ -160,6 +161,94 @@ def check_ids_property(text, fid, res):
     return None
 
 
+def _word(c):
+    return chr(c).isalnum() or c == 95 or c >= 128
+
+
+def label_sanity(file, s, e, files):
+    """a label must lie inside the file it names, be non-empty, on character boundaries, and cover whole words"""
+    if file not in files:
+        return "label names file %r, which is not in the set %r" % (file, sorted(files))
+    b = files[file].encode("utf-8")
+    if not (0 <= s < e <= len(b)):
+        return "label [%d,%d) is empty or outside the text (%d bytes)" % (s, e, len(b))
+    if not is_boundary(b, s) or not is_boundary(b, e):
+        return "label [%d,%d) is not on character boundaries" % (s, e)
+    sl = b[s:e].decode("utf-8", "replace")
+    if sl != sl.strip():
+        return "label [%d,%d) = %r begins or ends with white space" % (s, e, sl)
+    if s > 0 and _word(b[s - 1]) and _word(b[s]):
+        return "label [%d,%d) = %r begins in the middle of a word" % (s, e, sl)
+    if e < len(b) and _word(b[e - 1]) and _word(b[e]):
+        return "label [%d,%d) = %r ends in the middle of a word" % (s, e, sl)
+    return None
+
+
+def check_sem_labels(run):
+    """semantic diagnostics: every label (primary and secondary) passes label_sanity, and the primary label of the planted
+    rule's diagnostic lies in the lines that carry the fault (gen_sem plants one fault by changing or inserting lines of one
+    declaration).  P0003 reports the structure (its name), P0018 the external variable (the line after the changed block
+    header): for those the label's text is compared with the name."""
+    rng = run.rng
+    n_units = 25 if run.tier == "quick" else 400
+    cases, meta = [], []
+    for _ in range(n_units):
+        u = gen_sem.gen_valid(rng)
+        base = gen_sem.render(u)
+        for code, what, m in gen_sem.mutants(u, rng):
+            t = gen_sem.render(m)
+            k = next((j for j in range(len(u)) if u[j].lines != m[j].lines), None)
+            meta.append((code, what, base, t, m[k].name if k is not None else None))
+            cases.append({"id": len(cases), "op": "analyze", "files": [["dir/u 1.st", hexs(t)]]})
+    res = vlib.run_impl(cases, run.workdir, per_case_timeout=30)
+    by_code = {}
+    for (code, what, base, t, dname), r in zip(meta, res):
+        run.count(("semlabel", t), True, "semantic-label:" + code)
+        if "panic" in r or "abort" in r or r.get("parse_errs"):
+            continue
+        files = {"dir/u 1.st": t}
+        bad = None
+        for d in r.get("diags", []):
+            for (f, s, e) in [(d["file"], d["start"], d["end"])] + [tuple(x) for x in d.get("secondary", [])]:
+                if (f, s, e) == ("", 0, 0) and d["code"] != code:
+                    continue      # a diagnostic without location ("not implemented", P9999): printed with no label at all
+                bad = bad or label_sanity(f, s, e, files)
+            if bad:
+                bad = "%s: %s" % (d["code"], bad)
+                break
+        ds = [d for d in r.get("diags", []) if d["code"] == code]
+        if not bad and ds:
+            d = ds[0]
+            b = t.encode("utf-8")
+            bl, tl = base.split("\n"), t.split("\n")
+            i = 0
+            while i < min(len(bl), len(tl)) and bl[i] == tl[i]:
+                i += 1
+            j = 0
+            while j < min(len(bl), len(tl)) - i and bl[-1 - j] == tl[-1 - j]:
+                j += 1
+            lo, hi = i, max(len(tl) - j, i + 1)
+            line = b.count(b"\n", 0, d["start"])
+            sl = b[d["start"]:d["end"]].decode("utf-8", "replace")
+            if code == "P0003":
+                ok = dname is not None and sl.lower() == dname.lower()
+                want = "the structure's name %r" % dname
+            elif code == "P0018":
+                g = what.split("constant global ")[1].split(" ")[0]
+                ok = sl.lower() == g.lower() and lo <= line <= hi
+                want = "the external variable %r" % g
+            else:
+                ok = lo <= line < hi
+                want = "text in lines %d..%d (%r)" % (lo + 1, hi, " / ".join(x.strip() for x in tl[lo:hi])[:80])
+            if not ok:
+                bad = "%s (%s): the label covers %r in line %d, the diagnostic is about %s" % (code, what, sl, line + 1, want)
+            by_code[code] = by_code.get(code, 0) + 1
+        if bad:
+            run.violation("impl-violates-property", "a semantic diagnostic's label does not point at the text it is about: " + bad,
+                          {"input": {"text": t, "file": "dir/u 1.st"}, "op": "analyze", "planted": [code, what]})
+    return by_code
+
+
 def model_tokens(fields):
     dom = fields[0] == "1"
     toks = []
@@ -258,7 +347,9 @@ def search(run, info):
                     or not is_boundary(b, d["start"]) or not is_boundary(b, d["end"]):
                 run.violation("impl-violates-property", "syntax diagnostic label [%d,%d) in %r is not inside the file" % (
                     d["start"], d["end"], d["file"]), {"input": {"text_hex": hexs(t), "text": t}, "op": "parse"})
+    sem_labels = check_sem_labels(run)
     return {"coverage": {
+        "semantic_diagnostic_labels_checked_by_code": sem_labels,
         "rule": "texts = fixed corpus of lexical edge cases + repository fixtures + random token soups (keywords in random "
                 "case, identifiers, numbers, strings, comments with line breaks and non-ASCII, OSCAT blocks, CRLF, FF, "
                 "invalid characters, unterminated constructs) + generated programs in random spellings; non-trivial = non-empty "
